@@ -676,6 +676,8 @@ fn s_err(e: &bplustree::BPlusTreeError) -> &'static str {
 
 pub struct TreeSt {
     pub t: Map,
+    /// the same history on plain Copy types (BPlusTreeMap<i64, i64>): must answer identically
+    pub plain: BPlusTreeMap<i64, i64>,
     pub m: Mirror,
     pub hwm: (usize, usize),
     pub damaged: bool,
@@ -701,6 +703,7 @@ fn do_tree_op(st: &mut TreeSt, toks: &[&str], c: &mut Ctx) -> String {
                 }
             };
             cmp_out(c, "C01", "insert", r.as_ref().map(|x| x.v), want);
+            cmp_out(c, "C01", "insert on plain i64 map", st.plain.insert(z, v), want);
             s_optv(r.as_ref())
         }
         "R" => {
@@ -710,6 +713,7 @@ fn do_tree_op(st: &mut TreeSt, toks: &[&str], c: &mut Ctx) -> String {
             drop(k);
             let want = m.remove(&z).map(|e| e.1);
             cmp_out(c, "C01", "remove", r.as_ref().map(|x| x.v), want);
+            cmp_out(c, "C01", "remove on plain i64 map", st.plain.remove(&z), want);
             s_optv(r.as_ref())
         }
         "G" => {
@@ -717,6 +721,7 @@ fn do_tree_op(st: &mut TreeSt, toks: &[&str], c: &mut Ctx) -> String {
             let k = VKey::new(z, 0);
             let r = t.get(&k);
             cmp_out(c, "C01", "get", r.map(|x| x.v), m.get(&z).map(|e| e.1));
+            cmp_out(c, "C01", "get on plain i64 map", st.plain.get(&z).copied(), m.get(&z).map(|e| e.1));
             s_optv(r)
         }
         "C" => {
@@ -737,6 +742,7 @@ fn do_tree_op(st: &mut TreeSt, toks: &[&str], c: &mut Ctx) -> String {
         "L" => {
             let r = t.len();
             cmp_out(c, "C01", "len", r, m.len());
+            cmp_out(c, "C01", "len on plain i64 map", st.plain.len(), m.len());
             r.to_string()
         }
         "E" => {
@@ -762,11 +768,15 @@ fn do_tree_op(st: &mut TreeSt, toks: &[&str], c: &mut Ctx) -> String {
                 None => false,
             };
             cmp_out(c, "C01", "get_mut", r, want);
+            if let Some(slot) = st.plain.get_mut(&z) {
+                *slot = v;
+            }
             r.to_string()
         }
         "X" => {
             t.clear();
             m.clear();
+            st.plain.clear();
             st.hwm = (0, 0);
             "()".into()
         }
@@ -1034,6 +1044,7 @@ fn do_tree_op(st: &mut TreeSt, toks: &[&str], c: &mut Ctx) -> String {
             let k = VKey::new(z, 0);
             let r = t.remove_item(&k);
             let want = m.remove(&z).map(|e| e.1);
+            let _ = st.plain.remove_item(&z);
             match (&r, want) {
                 (Ok(v), Some(w)) if v.v == w => {}
                 (Err(bplustree::BPlusTreeError::KeyNotFound), None) => {}
@@ -1048,6 +1059,9 @@ fn do_tree_op(st: &mut TreeSt, toks: &[&str], c: &mut Ctx) -> String {
             let (z, id, v) = (p(toks[1]), p(toks[2]) as u64, p(toks[3]));
             let before = if st.damaged { let mut cc = Ctx { out: String::new(), viol: vec![], hid: String::new(), step: 0, dump_every: 1, viol_count: 0, per_prop: HashMap::new() }; dump_s3(t, &mut cc); Some((c14_oracle(t, c), cc.out)) } else { None };
             let r = t.try_insert(VKey::new(z, id), VVal::new(v));
+            if r.is_ok() {
+                st.plain.insert(z, v);
+            }
             if let Some(((_, must), dump)) = &before {
                 if *must {
                     let mut cc = Ctx { out: String::new(), viol: vec![], hid: String::new(), step: 0, dump_every: 1, viol_count: 0, per_prop: HashMap::new() };
@@ -1087,6 +1101,9 @@ fn do_tree_op(st: &mut TreeSt, toks: &[&str], c: &mut Ctx) -> String {
             let k = VKey::new(z, 0);
             let before = if st.damaged { let mut cc = Ctx { out: String::new(), viol: vec![], hid: String::new(), step: 0, dump_every: 1, viol_count: 0, per_prop: HashMap::new() }; dump_s3(t, &mut cc); Some((c14_oracle(t, c), cc.out)) } else { None };
             let r = t.try_remove(&k);
+            if r.is_ok() {
+                st.plain.remove(&z);
+            }
             if let Some(((_, must), dump)) = &before {
                 if *must {
                     let mut cc = Ctx { out: String::new(), viol: vec![], hid: String::new(), step: 0, dump_every: 1, viol_count: 0, per_prop: HashMap::new() };
@@ -1122,6 +1139,11 @@ fn do_tree_op(st: &mut TreeSt, toks: &[&str], c: &mut Ctx) -> String {
                 .collect();
             let arg: Vec<(VKey, VVal)> = items.iter().map(|(z, id, v)| (VKey::new(*z, *id), VVal::new(*v))).collect();
             let r = t.batch_insert(arg);
+            if r.is_ok() {
+                for (z, _, v) in &items {
+                    st.plain.insert(*z, *v);
+                }
+            }
             let mut want = vec![];
             for (z, id, v) in &items {
                 want.push(match m.get_mut(z) {
@@ -1376,7 +1398,8 @@ fn main() {
                             let _ = writeln!(c.out, "O new=Ok");
                             dump_s3(&t, &mut c);
                             dump_s2(&t, &mut c);
-                            let mut ts = TreeSt { t, m: Mirror::new(), hwm: (0, 0), damaged: false };
+                            let plain = BPlusTreeMap::<i64, i64>::new(cap).unwrap();
+                            let mut ts = TreeSt { t, plain, m: Mirror::new(), hwm: (0, 0), damaged: false };
                             check_structure(&ts.t, &mut c, &mut ts.hwm);
                             st = St::Tree(Box::new(ts));
                         }
